@@ -44,7 +44,13 @@ def required_cells(tier):
         req += [f"ldlt|lambda|1e{k}", f"tr|Delta|1e{k}"]
     for pat in ("zero", "zcol", "dep", "wide", "gen"):
         req += [f"tr|{pat}|S", f"colnorm|{pat}|S", f"ldlt|{pat}|S|cert"]
-    req += ["ldlt|gen|L|cert", "ldlt|gen|M|cert", "agree|cert", "agree|excluded", "dphi|tol1e-6|S", "dphi|tol1e-6|M", "dphi|tol1e-6|L",
+    # SCALE strata: J of size 1e-7 / 1e-3 / 1 / 1e3 with J'J dominant, balanced against and dominated by lambda D^2;
+    # certified dense/sparse comparisons at the smallest scale; uniformly small / large d
+    for sc in ("tiny", "small", "unit", "large"):
+        req += [f"ldlt|scale|{sc}|balanced", f"tr|scale|{sc}|balanced", f"agree|cert|{sc}", f"colnorm|scale|{sc}"]
+    req += ["ldlt|scale|tiny|Jdominant", "tr|scale|tiny|Jdominant", "ldlt|scale|unit|Jdominant", "ldlt|scale|tiny|Rdominant",
+            "agree|excluded|unit", "d|all<=1e-3", "d|all>=1e2"]
+    req += ["ldlt|gen|L|cert", "ldlt|gen|M|cert", "dphi|tol1e-6|S", "dphi|tol1e-6|M", "dphi|tol1e-6|L",
             "dphi|signonly|S", "dphi|zero|S", "dphi|limit-definition-selfcheck", "d|le1e-6", "d|ge1e3", "d|ones",
             "r|zero", "r|orthogonal", "r|generic", "ldlt|entries|integer", "ldlt|entries|double", "tr|gen|L", "colnorm|gen|L"]
     if tier == "thorough":
@@ -213,7 +219,8 @@ def check(prop, tier, seed, replay=None):
         rc = oc.finish("model_checking", rule, ASSUME,
                        extra_cov={"systems": n_sys,
                                   "library_calls_judged": sum(v for k, v in oc.cov.items() if "|st|" in k),
-                                  "agree_certified": oc.cov.get("agree|cert", 0), "agree_excluded_by_condition_bound": oc.cov.get("agree|excluded", 0),
+                                  "agree_certified": sum(v for k, v in oc.cov.items() if k.startswith("agree|cert|")),
+                                  "agree_excluded_by_condition_bound": sum(v for k, v in oc.cov.items() if k.startswith("agree|excluded|")),
                                   "required_cells": len(required),
                                   "checker_cmd": "java tlc2.TLC -config TraceSolver.cfg TraceSolver.tla (one process per trace chunk)"})
         return rc
